@@ -117,7 +117,7 @@ PState == [cfg |-> cfg, latest |-> latest, final |-> final, rcpt |-> rcpt, armed
            pending |-> pending, tried |-> tried, pl |-> pl, hq |-> hq, hs |-> POpt(hs), lq |-> POpt(lq), rs |-> POpt(rs)]
 
 Dead(why) ==
-    /\ PrintT(<<"DEAD", ToJson([t |-> Trace[l].t, n |-> Trace[l].n, ev |-> Trace[l].ev, why |-> why, spec |-> PState])>>)
+    /\ PrintT(<<"DEAD", ToJson([t |-> Trace[l].t, n |-> Trace[l].n, ev |-> Trace[l].ev, why |-> why, spec |-> PState, devs |-> rej])>>)
     /\ l' = NextReset(l)
     /\ ph' = 0
     /\ rej' = <<>>
